@@ -32,7 +32,7 @@ def run(ctx):
     linkrules.rule_W8(ctx, typer)
     ctx.floor("W1", 10)
     ctx.floor("W6", 30)
-    ctx.floor("W8", 12)
+    ctx.floor("W8", 6)
     mas = analyses(ctx)
     res = []
     for m, ma in mas.items():
